@@ -1,7 +1,5 @@
-\* as-built: substring tag matching + nil body fields, TLC must find a witness
-SPECIFICATION Spec
+SPECIFICATION WitnessSpec
 CONSTANTS
   Dev = {"SubstringTags", "NilBodyField"}
-  Models <- MCModels
 INVARIANTS RoundTrip StepsAreOutcome OneContent TagIsolation
 CHECK_DEADLOCK FALSE
